@@ -308,12 +308,12 @@ func (p *Pool) Put(x any) {
 		return
 	}
 	if p.Deterministic || AllDeterministic {
-		if GateFunc != nil {
-			GateFunc(p, "put")
-		}
 		p.mu.Lock()
 		p.free = append(p.free, x)
 		p.mu.Unlock()
+		if GateFunc != nil {
+			GateFunc(p, "put") // after the object is back in the pool
+		}
 		return
 	}
 	p.real.Put(x)
